@@ -1,4 +1,5 @@
 import OvniModel.Rt.Conc
+import OvniModel.Lemmas.ConcSafe
 import OvniModel.Lemmas.Conc
 import OvniModel.Generated.Footprint
 import OvniModel.Generated.Consts
@@ -54,21 +55,17 @@ theorem init_shape_generated :
 theorem fini_shape_generated :
     raceShapeRaw .ready .gone (Foot.generated.events "ovni_proc_fini") = true := by decide
 
---
--- OPEN: the semantic counterpart — "in every reachable state of N racing
--- `ovni_proc_init` calls interleaved with arbitrary thread-level programs,
--- `rproc.st = READY` implies that every member of `rproc` already holds the
--- winner's value" — is not proved; `init_once` gives it for the final state
--- (READY with exactly the winner's arguments) and `thread_isolation` assumes
--- programs that start after READY was published.  This table fact is what
--- such a proof would rest on, and it is re-decided against the source on
--- every run (moving the store of READY before `create_proc_dir` breaks it).
 /-- In `ovni_proc_init` every write of an `rproc` member comes before READY is
     published: the last shared event is the store of READY (so `rproc` is
     read-only once a thread can see READY). -/
 theorem init_publishes_last :
     (Foot.generated.events "ovni_proc_init").getLast? =
       some (Ovni.Generated.Footprint.kStore, Ovni.Generated.Footprint.stReady, 0, "st") := by decide
+
+/-- Starting from INIT, READY is reached by the last shared event of
+    `ovni_proc_init` and by no earlier one. -/
+theorem init_ready_only_last :
+    onlyLastRaw .init .ready (Foot.generated.events "ovni_proc_init").tail = true := by decide
 
 /-- Every path a thread-level function builds contains `thread.%d` (the two
     files of the model are `…/thread.<tid>/stream.obs` and
@@ -83,49 +80,39 @@ theorem thread_paths_contain_tid :
 
 /-! ### Exactly once -/
 
-/-- A race: the process state is `frm`; threads `0 … N-1` are each about to
-    make the call `kall i`; nobody else does anything. -/
-structure Race (frm : PSt) (N : Nat) (kall : Nat → Call D) (c : Cfg D) : Prop where
-  st : c.g.st = frm
-  racers : ∀ i, i < N → Fresh (kall i) (c.th i)
-  others : ∀ i, N ≤ i → Idle (c.th i)
+/-- The hypothesis of the once-theorems (`Race`, spelled out): the process
+    state is `frm`; threads `0 … N-1` are alive, have not started and are each
+    about to make the single call `kall i`; every other thread `i` (OS tid
+    `tidOf i`) runs an arbitrary thread-level program, at any stage. -/
+theorem race_iff (frm : PSt) (N : Nat) (kall : Nat → Call D) (tidOf : Nat → Nat) (c : Cfg D) :
+    Race frm N kall tidOf c ↔
+      c.g.st = frm ∧
+      (∀ i, i < N → (c.th i).dead = false ∧ (c.th i).wins = 0 ∧ (c.th i).pend = [] ∧ (c.th i).calls = [kall i]) ∧
+      (∀ i, N ≤ i → ThrSafe (tidOf i) (c.th i) ∧ (c.th i).wins = 0) :=
+  ⟨fun h => ⟨h.st, h.racers, h.others⟩, fun h => ⟨h.1, h.2.1, h.2.2⟩⟩
 
-/-- The call of thread `i` returned (ran to its end without die()). -/
-def Returned (x : Thr D) : Prop := x.dead = false ∧ x.pend = [] ∧ x.calls = []
+/-- `Returned x`: the call of the thread ran to its end without die(). -/
+theorem returned_iff (x : Thr D) : Returned x ↔ x.dead = false ∧ x.pend = [] ∧ x.calls = [] := Iff.rfl
 
 /-- Generic form: for ANY step list whose first access to `rproc.st` is the
     compare-exchange `frm → to` (and whose later steps do not store `frm`
     again), under every schedule at most one thread ever gets past it; and
     once all `N` calls have run to completion exactly one returned while all
     the others reached die(). -/
-theorem cas_once (fp : Foot) (cap : Nat) {frm to : PSt} (hne : frm ≠ to) (N : Nat)
-    (kall : Nat → Call D) (rest : Nat → List (Step D))
+theorem cas_once {fp : Foot} (hfp : fp.threadOK = true) (cap : Nat) {frm to : PSt} (hne : frm ≠ to) (N : Nat)
+    (kall : Nat → Call D) (rest : Nat → List (Step D)) (tidOf : Nat → Nat)
     (hexp : ∀ i t, expand fp t (kall i) = .st (.cas frm to) :: rest i)
     (hq : ∀ i, ∀ s ∈ rest i, Quiet frm s)
-    (c0 : Cfg D) (h0 : Race frm N kall c0) (σ : List Nat) :
+    (c0 : Cfg D) (h0 : Race frm N kall tidOf c0) (σ : List Nat) :
     (∀ i j, 0 < ((runSched fp cap c0 σ).th i).wins → 0 < ((runSched fp cap c0 σ).th j).wins → i = j) ∧
     (∀ i, ((runSched fp cap c0 σ).th i).wins ≤ 1) ∧
     (0 < N → (∀ i, i < N → ((runSched fp cap c0 σ).th i).done) →
       ∃ w, w < N ∧ Returned ((runSched fp cap c0 σ).th w) ∧ ((runSched fp cap c0 σ).th w).wins = 1 ∧
         (∀ i, i < N → i ≠ w → ((runSched fp cap c0 σ).th i).dead = true ∧ ((runSched fp cap c0 σ).th i).wins = 0) ∧
         (runSched fp cap c0 σ).g = applyQ (rest w) ⟨to, c0.g.proc⟩) := by
-  have inv0 : RaceInv frm to N kall rest c0 := by
-    constructor
-    · intro i
-      by_cases h : i < N
-      · exact Or.inl ⟨h, Or.inl (h0.racers i h)⟩
-      · exact Or.inr ⟨Nat.le_of_not_lt h, h0.others i (Nat.le_of_not_lt h)⟩
-    · have nw : ∀ i, ¬ Won frm (c0.th i) ∧ ¬ Lost (c0.th i) := by
-        intro i
-        by_cases h : i < N
-        · have f := h0.racers i h
-          exact ⟨not_won_of_wins0 f.2.1, not_lost_of_alive f.1⟩
-        · have f := h0.others i (Nat.le_of_not_lt h)
-          exact ⟨not_won_of_wins0 f.2.1, not_lost_of_alive f.1⟩
-      exact ⟨fun _ => nw, fun h => absurd h0.st h, fun i k a _ => absurd a (nw i).1⟩
-  have inv := raceInv_run fp cap hne hexp hq σ c0 inv0
-  have eff := effInv_run fp cap hne hexp hq c0.g.proc σ c0 inv0
-    ⟨fun _ => rfl, fun w a => absurd a (inv0.gl.1 h0.st w).1⟩
+  have both := race_invariants hfp cap hne hexp hq c0 h0 σ
+  have inv := both.1
+  have eff := both.2
   generalize runSched fp cap c0 σ = c at inv eff
   obtain ⟨ph, g1, g2, g3⟩ := inv
   -- wins > 0 only in phase Won
@@ -136,15 +123,20 @@ theorem cas_once (fp : Foot) (cap : Nat) {frm to : PSt} (hne : frm ≠ to) (N : 
     · have := hl.2.1; omega
     · exact hw'
     · have := hd.2; omega
-    · have := hi.2.1; omega
-  refine ⟨fun i j a b => g3 i j (wonOf i a) (wonOf j b), ?_, ?_⟩
+    · have := hi.2; omega
+  have racerOf : ∀ i, Won frm (c.th i) → i < N := by
+    intro i hw
+    rcases ph i with ⟨h, _⟩ | ⟨_, hi⟩
+    · exact h
+    · have := hi.2; have := hw.2.1; omega
+  refine ⟨fun i j a b => g3 i j (racerOf i (wonOf i a)) (racerOf j (wonOf j b)) (wonOf i a) (wonOf j b), ?_, ?_⟩
   · intro i
     rcases ph i with ⟨_, hf | hl | hw' | hd⟩ | ⟨_, hi⟩
     · have := hf.2.1; omega
     · have := hl.2.1; omega
     · have := hw'.2.1; omega
     · have := hd.2; omega
-    · have := hi.2.1; omega
+    · have := hi.2; omega
   · intro hN hdone
     -- a finished racer has either won (nothing left) or lost
     have fin : ∀ i, i < N → (Won frm (c.th i) ∧ (c.th i).pend = []) ∨ Lost (c.th i) := by
@@ -164,13 +156,9 @@ theorem cas_once (fp : Foot) (cap : Nat) {frm to : PSt} (hne : frm ≠ to) (N : 
     have hst : c.g.st ≠ frm := by
       intro e
       rcases fin 0 hN with ⟨w, _⟩ | l
-      · exact (g1 e 0).1 w
-      · exact (g1 e 0).2 l
-    obtain ⟨w, hw⟩ := g2 hst
-    have hwN : w < N := by
-      rcases ph w with ⟨h, _⟩ | ⟨_, hi⟩
-      · exact h
-      · have := hi.2.1; have := hw.2.1; omega
+      · exact (g1 e 0 hN).1 w
+      · exact (g1 e 0 hN).2 l
+    obtain ⟨w, hwN, hw⟩ := g2 hst
     have hwp : (c.th w).pend = [] := by
       rcases fin w hwN with ⟨_, p⟩ | l
       · exact p
@@ -178,21 +166,22 @@ theorem cas_once (fp : Foot) (cap : Nat) {frm to : PSt} (hne : frm ≠ to) (N : 
     refine ⟨w, hwN, ⟨hw.1, hwp, hw.2.2.1⟩, hw.2.1, ?_, ?_⟩
     · intro i hi hne'
       rcases fin i hi with ⟨wi, _⟩ | l
-      · exact absurd (g3 i w wi hw) hne'
+      · exact absurd (g3 i w hi hwN wi hw) hne'
       · exact l
-    · have := eff.2 w hw
-      rw [hwp] at this
-      exact this
+    · obtain ⟨done, hd1, hd2⟩ := eff.2 w hwN hw
+      rw [hwp, List.append_nil] at hd1
+      rw [hd2, hd1]
 
 /-- **init_once**: `N ≥ 1` threads race to call `ovni_proc_init` (any
-    arguments) on an uninitialised process. Under every schedule at most one
+    arguments) on an uninitialised process, while any number of other threads
+    run thread-level programs. Under every schedule at most one
     of them passes the compare-exchange; when all calls have completed,
     exactly one has returned, every other one has reached die(), and the
     process is READY with exactly the returned caller's arguments: the
     initialisation took effect once. The step list is the one generated from
     the C source. -/
-theorem init_once (cap N : Nat) (a : Nat → Proc) (c0 : Cfg D)
-    (h0 : Race .uninit N (fun i => Call.procInit (a i)) c0) (σ : List Nat) :
+theorem init_once (cap N : Nat) (a : Nat → Proc) (tidOf : Nat → Nat) (c0 : Cfg D)
+    (h0 : Race .uninit N (fun i => Call.procInit (a i)) tidOf c0) (σ : List Nat) :
     (∀ i j, 0 < ((runSched Foot.generated cap c0 σ).th i).wins →
         0 < ((runSched Foot.generated cap c0 σ).th j).wins → i = j) ∧
     (∀ i, ((runSched Foot.generated cap c0 σ).th i).wins ≤ 1) ∧
@@ -203,9 +192,9 @@ theorem init_once (cap N : Nat) (a : Nat → Proc) (c0 : Cfg D)
           ((runSched Foot.generated cap c0 σ).th i).wins = 0) ∧
         (runSched Foot.generated cap c0 σ).g = ⟨.ready, a w⟩) := by
   have sh := fun i => shape_of_raw (D := D) .uninit .init (a i) _ init_shape_generated
-  have h := cas_once Foot.generated cap (frm := .uninit) (to := .init) (by decide) N
+  have h := cas_once footprint_thread_functions cap (frm := .uninit) (to := .init) (by decide) N
     (fun i => Call.procInit (a i)) (fun i => ((Foot.generated.events "ovni_proc_init").map (toStep (a i))).tail)
-    (fun i t => (sh i).1) (fun i => (sh i).2) c0 h0 σ
+    tidOf (fun i t => (sh i).1) (fun i => (sh i).2) c0 h0 σ
   refine ⟨h.1, h.2.1, fun hN hd => ?_⟩
   obtain ⟨w, h1, h2, h3, h4, h5⟩ := h.2.2 hN hd
   refine ⟨w, h1, h2, h3, h4, ?_⟩
@@ -213,11 +202,44 @@ theorem init_once (cap N : Nat) (a : Nat → Proc) (c0 : Cfg D)
   cases a w
   rfl
 
+/-- **No thread ever sees a half-initialised process**: in every reachable
+    state of such a race — any prefix of any schedule, with any number of
+    bystander threads calling `ovni_thread_init`, emitting, … concurrently —
+    if `rproc.st` is READY then the winner has returned and every member of
+    `rproc` holds the winner's value (a bystander's `atomic_load(&rproc.st) ==
+    ST_READY` test therefore guards completely initialised data; before that
+    it dies with "process not ready"). -/
+theorem ready_means_initialised (cap N : Nat) (a : Nat → Proc) (tidOf : Nat → Nat) (c0 : Cfg D)
+    (h0 : Race .uninit N (fun i => Call.procInit (a i)) tidOf c0) (σ : List Nat) :
+    (runSched Foot.generated cap c0 σ).g.st = .ready →
+      ∃ w, w < N ∧ Returned ((runSched Foot.generated cap c0 σ).th w) ∧
+        (runSched Foot.generated cap c0 σ).g.proc = a w := by
+  have sh := fun i => shape_of_raw (D := D) .uninit .init (a i) _ init_shape_generated
+  have both := race_invariants footprint_thread_functions cap (frm := .uninit) (to := .init) (by decide)
+    (kall := fun i => Call.procInit (a i))
+    (rest := fun i => ((Foot.generated.events "ovni_proc_init").map (toStep (a i))).tail)
+    (fun i t => (sh i).1) (fun i => (sh i).2) c0 h0 σ
+  generalize runSched Foot.generated cap c0 σ = c at both
+  obtain ⟨⟨ph, g1, g2, g3⟩, e1, e2⟩ := both
+  intro hr
+  obtain ⟨w, hwN, hw⟩ := g2 (by rw [hr]; decide)
+  obtain ⟨done, hd1', hd2⟩ := e2 w hwN hw
+  have hd1 : ((Foot.generated.events "ovni_proc_init").map (toStep (a w))).tail = done ++ (c.th w).pend := hd1'
+  have hp : (c.th w).pend = [] := by
+    apply done_of_onlyLast .init .ready (a w) c0.g.proc _ init_ready_only_last done
+    · rw [List.map_tail]; exact hd1
+    · rw [← hd2]; exact hr
+  refine ⟨w, hwN, ⟨hw.1, hp, hw.2.2.1⟩, ?_⟩
+  rw [hp, List.append_nil] at hd1
+  rw [hd2, ← hd1]
+  cases a w
+  rfl
+
 /-- **fini_once**: the same for `N ≥ 1` threads racing to call
     `ovni_proc_fini` on a READY process; afterwards the process is GONE and
     the other members of `rproc` are as they were. -/
-theorem fini_once (cap N : Nat) (c0 : Cfg D)
-    (h0 : Race .ready N (fun _ => Call.procFini) c0) (σ : List Nat) :
+theorem fini_once (cap N : Nat) (tidOf : Nat → Nat) (c0 : Cfg D)
+    (h0 : Race .ready N (fun _ => Call.procFini) tidOf c0) (σ : List Nat) :
     (∀ i j, 0 < ((runSched Foot.generated cap c0 σ).th i).wins →
         0 < ((runSched Foot.generated cap c0 σ).th j).wins → i = j) ∧
     (∀ i, ((runSched Foot.generated cap c0 σ).th i).wins ≤ 1) ∧
@@ -228,9 +250,9 @@ theorem fini_once (cap N : Nat) (c0 : Cfg D)
           ((runSched Foot.generated cap c0 σ).th i).wins = 0) ∧
         (runSched Foot.generated cap c0 σ).g = ⟨.gone, c0.g.proc⟩) := by
   have sh := shape_of_raw (D := D) .ready .gone {} _ fini_shape_generated
-  have h := cas_once Foot.generated cap (frm := .ready) (to := .gone) (by decide) N
+  have h := cas_once footprint_thread_functions cap (frm := .ready) (to := .gone) (by decide) N
     (fun _ => Call.procFini) (fun _ => ((Foot.generated.events "ovni_proc_fini").map (toStep {})).tail)
-    (fun i t => sh.1) (fun _ => sh.2) c0 h0 σ
+    tidOf (fun i t => sh.1) (fun _ => sh.2) c0 h0 σ
   refine ⟨h.1, h.2.1, fun hN hd => ?_⟩
   obtain ⟨w, h1, h2, h3, h4, h5⟩ := h.2.2 hN hd
   exact ⟨w, h1, h2, h3, h4, by rw [h5]; rfl⟩
@@ -314,10 +336,11 @@ private def initRace : Cfg (List Nat) := raceCfg 3 (fun i => .procInit (args i))
 private def finiRace : Cfg (List Nat) := raceCfg 3 (fun _ => .procFini) .ready
 
 /-- The hypotheses of `init_once` hold for three racing threads … -/
-example : Race .uninit 3 (fun i => Call.procInit (args i)) initRace :=
+example : Race .uninit 3 (fun i => Call.procInit (args i)) (fun _ => 0) initRace :=
   ⟨rfl, fun i h => by simp [initRace, raceCfg, Fresh, h], fun i h => by
     have : ¬ i < 3 := by omega
-    simp [initRace, raceCfg, Idle, this]⟩
+    exact ⟨⟨by simp [initRace, raceCfg, this], by simp [initRace, raceCfg, this], by simp [initRace, raceCfg, this]⟩,
+      by simp [initRace, raceCfg, this]⟩⟩
 
 /-- … a round-robin schedule runs all three calls to completion: thread 0
     wins, the process is READY with thread 0's arguments, threads 1 and 2 died. -/
@@ -333,10 +356,11 @@ example :
     (c.th 2).dead = false ∧ (c.th 2).wins = 1 ∧ (c.th 0).dead = true ∧ (c.th 1).dead = true ∧
     c.g = ⟨.ready, args 2⟩ := by decide
 
-example : Race .ready 3 (fun _ => (Call.procFini : Call (List Nat))) finiRace :=
+example : Race .ready 3 (fun _ => (Call.procFini : Call (List Nat))) (fun _ => 0) finiRace :=
   ⟨rfl, fun i h => by simp [finiRace, raceCfg, Fresh, h], fun i h => by
     have : ¬ i < 3 := by omega
-    simp [finiRace, raceCfg, Idle, this]⟩
+    exact ⟨⟨by simp [finiRace, raceCfg, this], by simp [finiRace, raceCfg, this], by simp [finiRace, raceCfg, this]⟩,
+      by simp [finiRace, raceCfg, this]⟩⟩
 
 example :
     let c := runSched Foot.generated 100 finiRace [1, 0, 2, 2, 1, 0]
@@ -386,6 +410,38 @@ example :
     (c.th 0).dead = false ∧ (c.th 1).dead = false ∧ (c.th 0).t.s.finished = true ∧ (c.th 1).t.s.finished = true ∧
     File.size (c.fs 100 .obs) = 2 ∧ File.size (c.fs 101 .obs) = 1 ∧
     File.size (c.fs 100 .json) = 11 ∧ File.size (c.fs 101 .json) = 11 := by
+  set_option maxRecDepth 8000 in decide
+
+private def mixed : Cfg (List Nat) :=
+  { g := { st := .uninit },
+    th := fun i => if i < 2 then { calls := [.procInit (args i)] }
+                   else if i = 2 then { t := { tid := 102, s := { now := 1000 } }, calls := [.threadInit 102, .stream (ev 5)] }
+                   else { t := { tid := 100 + i } } }
+
+/-- Two racers and a bystander that calls `ovni_thread_init` concurrently:
+    the hypotheses of `init_once` / `ready_means_initialised` hold; -/
+example : Race .uninit 2 (fun i => Call.procInit (args i)) (fun i => 100 + i) mixed :=
+  ⟨rfl, fun i h => by simp [mixed, Fresh, h], fun i h => by
+    have h2 : ¬ i < 2 := by omega
+    by_cases e : i = 2
+    · subst e
+      refine ⟨⟨rfl, by simp [mixed], ?_⟩, rfl⟩
+      intro k hk
+      simp [mixed] at hk
+      rcases hk with rfl | rfl <;> simp [CallSafe]
+    · exact ⟨⟨by simp [mixed, h2, e], by simp [mixed, h2, e], by simp [mixed, h2, e]⟩, by simp [mixed, h2, e]⟩⟩
+
+/-- if the bystander comes too early it dies ("process not ready") … -/
+example :
+    let c := runSched Foot.generated 100 mixed ([0, 0, 2, 2] ++ roundRobin 2 15)
+    (c.th 2).dead = true ∧ c.g = ⟨.ready, args 0⟩ := by decide
+
+/-- … and if it comes after READY it is initialised with the winner's data
+    (`ovni.pid` of thread 1, who won here). -/
+example :
+    let c := runSched Foot.generated 100 mixed ([1, 1] ++ roundRobin 2 15 ++ List.replicate 12 2)
+    (c.th 2).dead = false ∧ (c.th 2).t.s.ready = true ∧ c.g = ⟨.ready, args 1⟩ ∧
+    (c.th 2).t.md.lookup "ovni.pid" = some "11" := by
   set_option maxRecDepth 8000 in decide
 
 /-- Distinct tids are needed: two threads that both call
